@@ -189,7 +189,7 @@ def run(ctx):
     ctx.assumptions = ["arithmetic overflow checks are disabled in release builds",
                        "calls through trait objects fan out to all workspace impls; dependency calls are leaves"]
     review = Review([r for r in TABLE if r[2] is not None])
-    fns, scoped = panic.run_panic(ctx, ENTRIES, in_scope, review, "c13", floor_fns=250, floor_sources=60, auto=auto)
+    fns, scoped = panic.run_panic(ctx, ENTRIES, in_scope, review, "c13", floor_fns=150, floor_sources=40, auto=auto)
     ctx.exhaustive = True
     for k, v in ctx.panic_stats.items():
         ctx.sample({k: v})
